@@ -12,9 +12,9 @@ SHARDS = {"quick": 8, "thorough": 16}
 WATCHDOG = {"quick": 1800, "thorough": 10800}
 CASES = {"quick": 90, "thorough": 1200}
 FLOORS = {
-    "quick": {"distinct_nontrivial": 120, "table_rows_checked": 15000, "greedy_compared": 500,
+    "quick": {"distinct_nontrivial": 120, "table_rows_checked": 15000, "greedy_compared": 300,
               "cases[max_interval_length==2*msl]": 40, "cases[n==2*msl]": 10, "tie_branches_explored": 20,
-              "threshold_pairs": 300},
+              "threshold_pairs": 250},
     "thorough": {"distinct_nontrivial": 2500, "table_rows_checked": 300000},
 }
 ANCHORS = [
